@@ -186,6 +186,28 @@ func verifC20Hist(args []vsx) vsx {
 		cOpen
 		cDone
 	)
+	// a literal source must carry what a fresh library reader really makes of it (the first pass of
+	// the generator computed it; a case mangled by the shrinker is not a case)
+	for _, op := range args[2].l {
+		if len(op.l) == 5 && op.l[0].i == 4 {
+			cls, y := verifLibFresh(int(enc), int(op.l[1].i), op.l[2].b)
+			if int64(cls) != op.l[3].i || !bytes.Equal(y, op.l[4].b) {
+				return vL(vS("bad-case"))
+			}
+		}
+	}
+	// Write / Close on a library writer that never had a destination is the library's business
+	// (the contract leaves it open): not a case
+	if enc != 1 {
+		for _, op := range args[2].l {
+			if op.l[0].i == 0 {
+				break
+			}
+			if op.l[0].i == 1 || op.l[0].i == 2 {
+				return vL(vS("bad-case"))
+			}
+		}
+	}
 	closed := map[int64]*sink{}
 	var curID int64
 	var curBuf *bytes.Buffer
